@@ -240,6 +240,8 @@ def gen_leaf_basic(rng, node, ctx, want="valid"):
 
 
 def loadable(node):
+    if str(node.get("validator", "")).startswith(("ge:", "le:")):
+        return False      # validated against a sibling: the outcome depends on the order of the keys in a tree, no claim on loads
     return node["kind"] not in ("virtual", "method", "include")
 
 
@@ -440,6 +442,8 @@ def in_format_domain(fmt, tree):
             return "\x00" not in v if fmt == "bson" else True
         if isinstance(v, (list,)):
             return all(rec(x) for x in v)
+        if type(v) is tuple:
+            return fmt in ("pickle", "yaml") and all(rec(x) for x in v)      # both write and read tuples as tuples
         if isinstance(v, dict):
             for k, x in v.items():
                 if not isinstance(k, str):
